@@ -1,2 +1,5 @@
 import LlirModel.Bytes
 import LlirModel.Enc
+import LlirModel.Natsort
+import LlirModel.Digits
+import LlirModel.IntLit
